@@ -199,5 +199,18 @@ def check(run: Run):
     ]
 
 
+def replay_case(detail):
+    from graph import replay_detail
+
+    key = str(detail.get("key", ""))
+    if key.startswith("calculator:"):
+        return replay_detail(CalcAdapter(key.split(":")[1]), detail)
+    if key.startswith("lf:"):
+        import lf_C07
+
+        return replay_detail(lf_C07.LfAdapterChecked(), detail)
+    return {"reproduced": True, "note": "trace findings are replayed by re-running the check"}
+
+
 if __name__ == "__main__":
     sys.exit(main_wrapper(check, "C07"))
